@@ -57,10 +57,11 @@ where
         from: usize,
         to: usize,
     ) -> Self {
+        // Same order as the writer: pages first, then the region's metadata.
+        let pages = pages.read();
         let region_lock = region.meta();
         let region_start = region_lock.start() as u64;
         let file = region.open_db_read_only_file().expect("open file");
-        let pages = pages.read();
         let from = from.min(stored_len);
         let to = to.min(stored_len);
 
